@@ -131,14 +131,16 @@ Print Assumptions C06_delete_order_free.
    (Load check, LoadOrStore, graph.index under the graph lock, Exists, resolver.Tag under
    the resolver lock).  For EVERY schedule of those steps that runs all programs to
    completion, the final content map and resolver are literally those of a sequential
-   execution of the same operations (in the order of their commit steps), and every
-   Predecessors query gets the same answer (as a set). *)
+   execution of the same operations (in the order of their commit steps, which keeps
+   every goroutine's program order), and every Predecessors query gets the same answer
+   (as a set). *)
 Theorem C06_quiescent_serialisable_memory : forall (progs : list (list op)) (sched : list nat),
   let cf := mconf_run (mconf_init progs) sched in
   quiescent cf = true ->
-  exists order : list op,
-    Permutation order (concat progs) /\
-    let q := fst (run mem_step mem_init order) in
+  exists order : list (nat * op),          (* (goroutine, operation) in commit order *)
+    Permutation (map snd order) (concat progs) /\
+    (forall i, log_of i order = nth i progs []) /\     (* every goroutine's program order is kept *)
+    let q := fst (run mem_step mem_init (map snd order)) in
     m_cas (c_store cf) = m_cas q /\ m_res (c_store cf) = m_res q /\
     forall n k, In k (map gk (g_predecessors n (m_graph (c_store cf)))) <->
                 In k (map gk (g_predecessors n (m_graph q))).
